@@ -1,4 +1,5 @@
 """Rules over Vm::run_count / run_gc / prepare_eval shared by C07, C12, C13."""
+import re
 from ..facts import callee, op_place, op_const, short_path
 from ..flow import liveness, field_writes, places_read
 from .common import *
@@ -1299,6 +1300,219 @@ def r12v(ctx, rep, rule="R12v"):
                 "the kind never reaches run_gc's gate, and dead values of that kind held inline pile up unseen" % (
                     nm, kind, ", ".join(sorted(gate_fields)), weigher.short), bad)
     rep.floor(rule, "weighed kinds x (put, maybe_put)", n, 16)
+
+
+def _r12_gate_fields(facts):
+    gc = facts.fns.get(RUN_GC)
+    out = set()
+    if gc is not None:
+        for bb, t in gc.calls():
+            if callee(t) in _gate_fns(facts):
+                out |= _self_fields_read(facts, callee(t))
+    return out
+
+
+def _r12_charging_blocks(facts, f, gate_fields, depth=2):
+    """blocks of Heap method f that add to a field the gate reads: by a statement, or by calling a Heap method that does"""
+    def writes_gate(path, d):
+        g = facts.fns.get(path)
+        if g is None or not path.startswith(HEAP):
+            return False
+        for bb, j, st in g.stmts():
+            lp = st["lhs"]
+            if lp["l"] == 1 and len(lp["p"]) >= 2 and lp["p"][0] == "*" and isinstance(lp["p"][1], dict) and lp["p"][1].get("n") in gate_fields:
+                return True
+        if d > 0:
+            for bb, t in g.calls():
+                c = callee(t) or ""
+                if c.startswith(HEAP) and c not in (HEAP + "put", HEAP + "maybe_put", HEAP + "alloc", path) and writes_gate(c, d - 1):
+                    return True
+        return False
+    out = set()
+    for bb, j, st in f.stmts():
+        lp = st["lhs"]
+        if lp["l"] == 1 and len(lp["p"]) >= 2 and lp["p"][0] == "*" and isinstance(lp["p"][1], dict) and lp["p"][1].get("n") in gate_fields:
+            out.add(bb)
+    for bb, t in f.calls():
+        c = callee(t) or ""
+        if c.startswith(HEAP) and c not in (HEAP + "put", HEAP + "maybe_put", HEAP + "alloc") and writes_gate(c, depth):
+            out.add(bb)
+    return out
+
+
+def _r12_weighed_kinds(facts):
+    """(weigher fn, VCell kinds it weighs by a number taken from the value)"""
+    put = facts.fns.get(HEAP + "put")
+    if put is None:
+        return None, []
+
+    def find_weigher(f, depth):
+        for bb, t in f.calls():
+            c = callee(t) or ""
+            if c not in facts.fns or not c.startswith("marwood::vm::heap::"):
+                continue
+            if not c.startswith(HEAP):
+                if disc_switches(facts, facts.fns[c], "marwood::vm::vcell::VCell"):
+                    return facts.fns[c]
+            elif depth > 0 and c not in (HEAP + "put", HEAP + "maybe_put", HEAP + "alloc"):
+                w = find_weigher(facts.fns[c], depth - 1)
+                if w is not None:
+                    return w
+        return None
+    weigher = find_weigher(put, 2)
+    if weigher is None:
+        return None, []
+    sw = disc_switches(facts, weigher, "marwood::vm::vcell::VCell")[0]
+    kinds = []
+    for kind in sorted(sw["arms"]):
+        region = arm_region(weigher, sw, kind)
+        vals = []
+        for bb, j, st in weigher.stmts():
+            if bb in region and st["lhs"]["l"] == 0 and not st["lhs"]["p"]:
+                vals.append(weigher.origin(st["rv"]["a"]) if st["rv"]["k"] == "use" else ("rv", st))
+        for bb, t in weigher.calls():
+            if bb in region and t["dest"]["l"] == 0 and not t["dest"]["p"]:
+                vals.append(("call", t))
+        if vals and not all(v[0] == "const" for v in vals):
+            kinds.append(kind)
+    return weigher, kinds
+
+
+def r12w(ctx, rep, rule="R12w"):
+    """a value of a weighed kind built inside the heap module is charged too"""
+    facts = ctx["facts"]
+    rep.rule(rule, "the heap module builds values itself: Heap::maybe_put_cell turns a datum into its stored form and leaves a number "
+             "inline in the bytecode or the literal vector it belongs to, without going through Heap::put / maybe_put. For every "
+             "VCell of a weighed kind (R12v) that a Heap method other than put / maybe_put constructs, the value is handed to "
+             "put / maybe_put, or every way from its construction to the method's return passes a charge. Evaluating a 60 KB "
+             "bignum literal 3000 times held 170 MB, 32 MB when the literal is quoted in a list.")
+    gate_fields = _r12_gate_fields(facts)
+    weigher, kinds = _r12_weighed_kinds(facts)
+    if weigher is None or not gate_fields:
+        rep.anchor_lost(rule, "the gate's fields / the weigher of Heap::put")
+        return
+    n = 0
+    for path, f in sorted(facts.fns.items()):
+        if not path.startswith(HEAP) or path in (HEAP + "put", HEAP + "maybe_put") or "{closure" in path:
+            continue
+        sites = []
+        for bb, j, st in f.stmts():
+            rv = st["rv"]
+            if rv["k"] == "agg" and rv.get("adt") == "marwood::vm::vcell::VCell" and rv.get("variant") in kinds and not st["lhs"]["p"]:
+                sites.append((bb, st))
+        if not sites:
+            continue
+        charging = _r12_charging_blocks(facts, f, gate_fields)
+        rets = set(f.return_blocks())
+        for bb, st in sites:
+            n += 1
+            from .numeric import _forward_locals
+            fl = _forward_locals(f, st["lhs"]["l"])
+            handed = False
+            for b2, t2 in f.calls():
+                if callee(t2) in (HEAP + "put", HEAP + "maybe_put"):
+                    for a in t2["args"][1:]:
+                        pa = op_place(a)
+                        if pa is not None and pa["l"] in fl and "&" not in (pa.get("ty") or ""):
+                            handed = True
+            ok = handed
+            if not ok:
+                seen, stack = set(), [bb]
+                if bb in charging:
+                    ok = True
+                else:
+                    while stack:
+                        x = stack.pop()
+                        if x in seen or (x in charging and x != bb):
+                            continue
+                        seen.add(x)
+                        stack.extend(f.succ[x])
+                    ok = not (seen & rets)
+            key = "%s|%s|%s" % (rule, f.short.rsplit("::", 1)[-1], st["rv"]["variant"])
+            (rep.ok if ok else rep.fail)(
+                rule, key, "%s charges the %s it builds (or hands it to put)" % (f.short, st["rv"]["variant"]) if ok else
+                "%s builds a %s and returns it without adding to Heap.{%s} and without going through Heap::put: the weight %s gives the "
+                "kind is never counted for values that enter this way (literals in compiled code)" % (
+                    f.short, st["rv"]["variant"], ", ".join(sorted(gate_fields)), weigher.short), [st["loc"]])
+    rep.floor(rule, "VCell values of a weighed kind built by Heap methods", n, 1)
+
+
+def r12x(ctx, rep, rule="R12x"):
+    """handing a shared bignum on is not charged as if it were new"""
+    facts = ctx["facts"]
+    rep.rule(rule, "the gate counts memory, not traffic: the digits of a bignum live behind an Rc and are shared by every copy, so "
+             "(vector-ref v 0) of a vector that holds a 1 MB bignum allocates nothing — yet Heap::maybe_put charged the full "
+             "megabyte for every such result, and Heap::put for every (cons big i); the budget was used up every few instructions "
+             "and each collection re-marked everything live: 100000 vector-refs took 36 s instead of 0.2 s. Where put / maybe_put "
+             "(or the Heap method they charge through) add a value's weight, the sharing of a reference-counted payload is "
+             "consulted (Rc::strong_count / Rc::get_mut / Rc::try_unwrap on it).")
+    gate_fields = _r12_gate_fields(facts)
+    scope = []
+    for nm in ("put", "maybe_put"):
+        f = need(rep, rule, facts, HEAP + nm)
+        if f is None:
+            return
+        scope.append(f)
+        for bb, t in f.calls():
+            c = callee(t) or ""
+            if c.startswith(HEAP) and c in facts.fns and c not in (HEAP + "put", HEAP + "maybe_put", HEAP + "alloc") and \
+                    facts.fns[c] not in scope and _r12_charging_blocks(facts, facts.fns[c], gate_fields, depth=1):
+                scope.append(facts.fns[c])
+    hits = []
+    for g in scope:
+        for bb, t in g.calls():
+            c = (callee(t) or "") + " " + (t.get("fnargs") or "")
+            if re.search(r"\bRc::<[^>]*>::(strong_count|get_mut|try_unwrap)\b|\bRc<[^ ]*>::(strong_count|get_mut|try_unwrap)\b", c):
+                hits.append(t["loc"])
+    key = rule + "|put, maybe_put|shared-payload-not-recharged"
+    (rep.ok if hits else rep.fail)(
+        rule, key, "the charge consults the reference count of a shared payload (%d call%s in %s)" % (
+            len(hits), "" if len(hits) == 1 else "s", ", ".join(sorted({g.short.rsplit("::", 1)[-1] for g in scope}))) if hits else
+        "Heap::put / maybe_put add the full weight of a bignum whenever one passes through, also when its digits are shared with a "
+        "live holder and nothing was allocated: reading a large bignum out of a vector in a loop makes a collection due every few "
+        "instructions", hits or [scope[0].span])
+
+
+def r12y(ctx, rep, rule="R12y"):
+    """the weight of a macro covers everything its rules own"""
+    from ..flow import fields_read_of_self
+    facts = ctx["facts"]
+    rep.rule(rule, "a macro's weight is the memory of its rules, not the number of their pairs: a transformer owns copies of its "
+             "patterns, templates and literals (every pattern keeps the literals once more), and a string or symbol among them is "
+             "one cell however long. The function the weigher calls for a Macro (a) visits the transformer's literals as well as "
+             "its rules and (b) gives strings and symbols arms of their own in its walk over the cells. 1000 redefinitions of a "
+             "macro whose template holds a 1 MB string kept 900 MB; 1000 of one with 20000 literals 2.5 GB.")
+    weigher, kinds = _r12_weighed_kinds(facts)
+    if weigher is None:
+        rep.anchor_lost(rule, "the weigher of Heap::put")
+        return
+    sw = disc_switches(facts, weigher, "marwood::vm::vcell::VCell")[0]
+    region = arm_region(weigher, sw, "Macro")
+    target = None
+    for bb, t in weigher.calls():
+        if bb in region and (callee(t) or "").startswith("marwood::vm::transform::") and callee(t) in facts.fns:
+            target = facts.fns[callee(t)]
+    if target is None:
+        rep.fail(rule, rule + "|macro|weight-function", "the weigher has no arm for a Macro that calls into the transformer", [weigher.span])
+        return
+    read = set(fields_read_of_self(target))
+    key = rule + "|" + target.short.rsplit("::", 1)[-1] + "|literals-visited"
+    ok = "literals" in read and "syntax_rules" in read
+    (rep.ok if ok else rep.fail)(
+        rule, key, "%s reads the transformer's rules and its literals" % target.short if ok else
+        "%s reads Transform.{%s} only: the literals of a syntax-rules form (and their copy in every pattern) weigh nothing, so dead "
+        "transformers with long literal lists pile up unseen" % (target.short, ", ".join(sorted(read))), [target.span])
+    armed = set()
+    for csw in disc_switches(facts, target, "marwood::cell::Cell"):
+        for v, tg in csw["arms"].items():
+            if tg != csw["otherwise"]:
+                armed.add(v)
+    for kind in ("String", "Symbol"):
+        key = "%s|%s|%s" % (rule, target.short.rsplit("::", 1)[-1], kind)
+        (rep.ok if kind in armed else rep.fail)(
+            rule, key, "a %s in a rule is weighed by its own arm" % kind if kind in armed else
+            "%s walks the cells of the rules without an arm for a %s: its text, however long, counts as one cell" % (target.short, kind),
+            [target.span])
 
 
 def _gate_every_instruction(facts):
